@@ -61,17 +61,27 @@ def typeOk (d : DType) : PVal → Bool
   | .dict _ => d == .dict
   | .obj _ => false
 
-/-- `Parameter.set_value` for every declared parameter of a class, against the data of ONE config -/
-def setParams (ps : List ParamDecl) (data : Data) : Except Err (List (Str × PVal)) :=
-  ps.mapM (fun p =>
-    match (match get? p.nic data with
-           | some v => some v
-           | none => p.default) with
-    | none => .error .missingParam
-    | some v =>
-      match p.dtype with
-      | some d => if typeOk d v then .ok (p.name, v) else .error .badType
-      | none => .ok (p.name, v))
+/-- `Parameter.set_value` for one declared parameter against the data of ONE config:
+the config's value under `name_in_config`, else the default, else an error; then the type check -/
+def setParam (p : ParamDecl) (data : Data) : Except Err PVal :=
+  match (match get? p.nic data with
+         | some v => some v
+         | none => p.default) with
+  | none => .error .missingParam
+  | some v =>
+    match p.dtype with
+    | some d => if typeOk d v then .ok v else .error .badType
+    | none => .ok v
+
+/-- `ParameterRegistry.set_values`: every declared parameter, in declaration order; the first failure aborts -/
+def setParams : List ParamDecl → Data → Except Err (List (Str × PVal))
+  | [], _ => .ok []
+  | p :: ps, data =>
+    match setParam p data with
+    | .error e => .error e
+    | .ok v => match setParams ps data with
+      | .error e => .error e
+      | .ok r => .ok ((p.name, v) :: r)
 
 /-! ## first pass: tasks of every config -/
 
@@ -98,17 +108,31 @@ def register (t : Task1) : List Task1 → Except Err (List Task1)
       | .error e => .error e
       | .ok r' => .ok (u :: r')
 
+/-- the tasks one config declares: `tasks` entries that are neither abstract nor excluded, in order -/
+def addTasks (classes : Classes) (cfg : Cfg) (ix : Nat) : List Str → List Task1 → Except Err (List Task1)
+  | [], acc => .ok acc
+  | cid :: rest, acc =>
+    match get? cid classes with
+    | none => .error .notFound
+    | some c =>
+      if c.abstract || cfg.excluded.contains cid then addTasks classes cfg ix rest acc
+      else match setParams c.params cfg.data with
+        | .error e => .error e
+        | .ok ps =>
+          match register { full := fullName cfg.ns c.slug, cls := c, cfgIx := ix, ns := cfg.ns, params := ps } acc with
+          | .error e => .error e
+          | .ok acc' => addTasks classes cfg ix rest acc'
+
+def createTasksFrom (classes : Classes) : List Cfg → Nat → List Task1 → Except Err (List Task1)
+  | [], _, acc => .ok acc
+  | cfg :: rest, ix, acc =>
+    match addTasks classes cfg ix cfg.tasks acc with
+    | .error e => .error e
+    | .ok acc' => createTasksFrom classes rest (ix + 1) acc'
+
 /-- `Chain._create_tasks` -/
 def createTasks (classes : Classes) (cfgs : List Cfg) : Except Err (List Task1) :=
-  (cfgs.zipIdx).foldlM (fun acc (cfg, ix) =>
-    cfg.tasks.foldlM (fun acc' cid =>
-      match get? cid classes with
-      | none => .error .notFound
-      | some c =>
-        if c.abstract || cfg.excluded.contains cid then .ok acc'
-        else match setParams c.params cfg.data with
-          | .error e => .error e
-          | .ok ps => register { full := fullName cfg.ns c.slug, cls := c, cfgIx := ix, ns := cfg.ns, params := ps } acc') acc) []
+  createTasksFrom classes cfgs 0 []
 
 /-! ## dependencies -/
 
@@ -144,32 +168,50 @@ def findErr : Names.Err → Err
   | .notFound => .notFound
   | .ambiguous => .ambiguous
 
+/-- the name an input declaration is looked up under: the class's slug or the given name, prefixed with the
+declaring task's namespace unless it already starts with `namespace::` -/
+def lookupName (classes : Classes) (ns : Option Str) (i : InputDecl) : Except Err (Str × Bool) :=
+  let raw : Except Err (Str × Bool) := match i.ref with
+    | .byName r => .ok (r, true)
+    | .byClass cid => match get? cid classes with
+      | some c => .ok (c.slug, false)
+      | none => .error .notFound
+  match raw with
+  | .error e => .error e
+  | .ok (raw, byName) =>
+    .ok (match ns with
+      | some n => if !n.isEmpty && !isPrefix (n ++ [':', ':']) raw then n ++ ':' :: ':' :: raw else raw
+      | none => raw, byName)
+
+/-- one step of `Chain._process_dependencies`: resolve one (expanded) input declaration -/
+def resolveOne (classes : Classes) (names : List Str) (ns : Option Str) (acc : List (Str × InVal)) (i : InputDecl) :
+    Except Err (List (Str × InVal)) :=
+  match lookupName classes ns i with
+  | .error e => .error e
+  | .ok (name, byName) =>
+    if acc.any (fun kv => kv.1 == name) then .error .dupInput
+    else match Names.findFull name names false with
+      | .ok found =>
+        -- a by-name reference is replaced by the full name found; a by-class reference keeps its
+        -- spelling and `tasks[input_task_name]` must exist under exactly that name
+        let key := if byName then found else name
+        if names.contains key then .ok (set key (.task key) acc) else .error .notFound
+      | .error _ =>
+        match i.default with
+        | some d => .ok (set name (.dflt d) acc)
+        | none => .error .missingInput
+
+def resolveAll (classes : Classes) (names : List Str) (ns : Option Str) :
+    List InputDecl → List (Str × InVal) → Except Err (List (Str × InVal))
+  | [], acc => .ok acc
+  | i :: rest, acc => match resolveOne classes names ns acc i with
+    | .error e => .error e
+    | .ok acc' => resolveAll classes names ns rest acc'
+
 /-- `Chain._process_dependencies` for one task: ordered map input name ↦ task or default -/
 def resolveInputs (classes : Classes) (names : List Str) (tname : Str) (cls : ClassDecl) (ns : Option Str) :
     Except Err (List (Str × InVal)) :=
-  (expandInputs cls.inputs names tname).foldlM (fun acc i =>
-    let raw : Except Err (Str × Bool) := match i.ref with
-      | .byName r => .ok (r, true)
-      | .byClass cid => match get? cid classes with
-        | some c => .ok (c.slug, false)
-        | none => .error .notFound
-    match raw with
-    | .error e => .error e
-    | .ok (raw, byName) =>
-      let name := match ns with
-        | some n => if !n.isEmpty && !isPrefix (n ++ [':', ':']) raw then n ++ ':' :: ':' :: raw else raw
-        | none => raw
-      if acc.any (fun kv => kv.1 == name) then .error .dupInput
-      else match Names.findFull name names false with
-        | .ok found =>
-          -- a by-name reference is replaced by the full name found; a by-class reference keeps its
-          -- spelling and `tasks[input_task_name]` must exist under exactly that name
-          let key := if byName then found else name
-          if names.contains key then .ok (set key (.task key) acc) else .error .notFound
-        | .error _ =>
-          match i.default with
-          | some d => .ok (set name (.dflt d) acc)
-          | none => .error .missingInput) []
+  resolveAll classes names ns (expandInputs cls.inputs names tname) []
 
 /-! ## second pass: keys, sharing, final tasks -/
 
@@ -204,6 +246,14 @@ def regGet (k : Str × Str) : Registry → Option (Nat × Option Str × List (St
   | [] => none
   | (k', v) :: r => if k'.1 == k.1 && k'.2 == k.2 then some v else regGet k r
 
+/-- `Chain._create_task` with a registry: an object registered under `(slug, key)` is reused, otherwise a new
+object (fresh id) is created and registered -/
+def assign (reg : Registry) (next : Nat) (k : Str × Str) (ns : Option Str) (ps : List (Str × PVal)) :
+    Nat × Option Str × List (Str × PVal) × Registry × Nat :=
+  match regGet k reg with
+  | some (o, ons, ops) => (o, ons, ops, reg, next)
+  | none => (next, ns, ps, reg ++ [(k, (next, ns, ps))], next + 1)
+
 structure B2 where
   done : List Task2
   reg : Registry
@@ -227,9 +277,7 @@ def recreate (H : Str → Str) (pr : Char → Bool) (t1s : List (Task1 × List (
             | .task f => (st1.done.find? (fun t => t.full == f)).map (fun t2 => (kv.1, t2.key))
             | .dflt _ => none)
           let key := Key.keyOf H pr (toKeyParams t.cls.params t.params) t.ns inKeys
-          let (oid, ons, ops, reg', next') := match regGet (t.cls.slug, key) st1.reg with
-            | some (o, ons, ops) => (o, ons, ops, st1.reg, st1.next)
-            | none => (st1.next, t.ns, t.params, st1.reg ++ [((t.cls.slug, key), (st1.next, t.ns, t.params))], st1.next + 1)
+          let (oid, ons, ops, reg', next') := assign st1.reg st1.next (t.cls.slug, key) t.ns t.params
           .ok { done := st1.done ++ [{ full := t.full, cid := t.cls.cid, slug := t.cls.slug, ns := t.ns, cfgIx := t.cfgIx,
                                        params := t.params, inputs := ins, key := key, objId := oid, objNs := ons, objParams := ops }],
                 reg := reg', next := next' }
